@@ -95,7 +95,7 @@ fn subjects() -> Vec<Value> {
         }
         level = next;
     }
-    for s in ["a.b", "a$", ".", "^a", "ab.", "c", "A", "aXb", "a|b", "'a'", "\"a\"", "a'", "'", "\"", "a\\b", "a\\.b", "\\"] {
+    for s in ["caf\u{e9}", "\u{e9}", "\u{17c}\u{f3}\u{142}w", "\u{e9}a", "a\u{e9}", "\u{10000}", "a.b", "a$", ".", "^a", "ab.", "c", "A", "aXb", "a|b", "'a'", "\"a\"", "a'", "'", "\"", "a\\b", "a\\.b", "\\"] {
         v.push(json!(s));
     }
     v.extend([json!(1), json!(null), json!(true), json!(["a"]), json!({"a": "a"})]);
@@ -107,6 +107,9 @@ fn regex_part(run: &Run, max_size: usize) -> Acc {
     pats.extend(invalid_patterns());
     pats.extend(["(a)|(b)", "(ab)|(ba)", "(a)(b)", "(a)|b", "a|(b)", "(a|b)|(ab)", "(a)|(b)|(ab)", "(a)?|(b)(a)", "(a)*|(b)+"].iter().map(|s| s.to_string()));
     pats.extend(["a{2}", "a{1,2}b", "(ab){2,}", "[a-b]+", "[^ab]", "a\\|b", "\\(a\\)", "(a|b)*abb", "a.*b", ".*", ".+", "(a*)*", "(a|)+", "\\\\", "a\\\\.b", "[.]", "[\\.]", "'a'", "\"a\"", "a'", "'", "\"", "'a|b'", "a\"b"].iter().map(|s| s.to_string()));
+    // non-ASCII characters in classes, alone and in alternations, against ASCII and non-ASCII subjects (an engine mode
+    // chosen from the subject or the pattern must not change the answer)
+    pats.extend(["[^\u{e9}]+", "[^\u{e9}]", "[\u{e9}\u{e8}]?a", "[a-z\u{430}-\u{44f}]+", "\u{e9}|a", "[\u{e9}]*", "([^\u{e9}])+", "[^\u{10000}]*", "\u{e9}?a*", "[^\u{e9}]*b", ".\u{e9}", "[a\u{e9}]b*", "[^a\u{e9}]"].iter().map(|s| s.to_string()));
     // for every pattern with a backslash also the text its string-literal spelling has between the quotes (every
     // backslash doubled), used as a pattern from the document: the same text then reaches the evaluator once as a
     // literal and once as a document value, with different meanings
